@@ -2,7 +2,7 @@ package main
 
 func init() {
 	register(&propDef{ID: "C15", Title: "Network-policy sync converges and leaves foreign rules alone",
-		Explanation: "Decides: (R1) ordering — ipsets are created before the rules referencing them, a failed creation submits nothing, stale sets are destroyed only from the deferred clean-up (after the rules were rewritten); stale ipset entries are scanned for every set whose entries could be listed; SyncPodChains ensures the basic chains before its batch, declares the pod chain it fills and adds the jump only after the restore succeeded; the policy event handlers run policies -> rules -> pods on add/update and policies -> pods -> rules on delete (flattened through same-package straight-line helpers); (R2) ownership — DestroySet only behind HasPrefix(name, NamePrefix) and not-in-new-map, `-X` only behind HasPrefix(chain, policyChainPrefix) and not-active, Flush/DeleteChain only on podChainName(pod), keyword deletes only in galaxy's chains, restores never flush the table; (R3) PolicyManager.policies only under the manager mutex and never modified in place. Does not decide convergence from arbitrary prior state nor idempotence (a fixed point over kernel state).",
+		Explanation: "Decides: (R1) ordering — ipsets are created before the rules referencing them, a failed creation submits nothing, stale sets are destroyed only from the deferred clean-up (after the rules were rewritten); every policy whose chain is written by writeRules is marked active in the same iteration (so the next sync cannot `-X` a live, rule-less policy's chain); stale ipset entries are scanned for every set whose entries could be listed; SyncPodChains ensures the basic chains before its batch, declares the pod chain it fills and adds the jump only after the restore succeeded; the policy event handlers run policies -> rules -> pods on add/update and policies -> pods -> rules on delete (flattened through same-package straight-line helpers); (R2) ownership — DestroySet only behind HasPrefix(name, NamePrefix) and not-in-new-map, `-X` only behind HasPrefix(chain, policyChainPrefix) and not-active, Flush/DeleteChain only on podChainName(pod), keyword deletes only in galaxy's chains, restores never flush the table; (R3) PolicyManager.policies only under the manager mutex and never modified in place. Does not decide convergence from arbitrary prior state nor idempotence (a fixed point over kernel state).",
 		Assumptions: []string{"CFG paths; iptables lines identified by their constant words and the provenance of the chain operand"},
 		Run: func(c *Ctx) {
 			c.Rule("C15.R1", "ordering and ownership of policy sync", 21)
